@@ -384,6 +384,19 @@ def run(ses, rep):
                 rep.add(oid_, rep.violation({"obligation": "persistent-state", "where": info["where"]}, {"what": what, "observed": v, "replay_kind": "state", **rec}), f"{what}; {v}")
             else:
                 rep.add(oid_, "inconclusive", f"{what}: directories with different configurations come out the same for 1, 2, 3 and 8 threads")
+    try:
+        w_flagged = work_units(ses, rep)
+    except Inconclusive as e:
+        rep.add("work-units/one-file-per-job", "inconclusive", str(e)[:300], nontrivial=False)
+        w_flagged = []
+    if w_flagged:
+        v, rec = replay_sweep()
+        for item in w_flagged:
+            oid_, what = item[0], item[1]
+            if v:
+                rep.add(oid_, rep.violation({"obligation": "work-units"}, {"what": what, "observed": v, "replay_kind": "sweep", **rec}), f"{what}; {v}")
+            else:
+                rep.add(oid_, "inconclusive", f"{what}: the thread-count sweep shows the same outcome for 1..16 threads")
     j_flagged = jobs_run_on_the_pool(ses, rep)
     if j_flagged:
         v, rec = replay_jobs()
@@ -404,7 +417,51 @@ def run(ses, rep):
             rep.add(oid, status, v)
 
 
+def replay_sweep():
+    """one file set (unformatted files, an unparseable one, a formatted one, a missing path), every output mode, several orders and thread counts:
+    the exit status is the maximal severity and every file ends up as when it is formatted alone - whatever the thread count"""
+    binp = common.native_build("default")
+    base = {"a.lua": clireplay.UNFORMATTED, "b.lua": clireplay.UNFORMATTED, "bad.lua": clireplay.BROKEN, "ok.lua": clireplay.FORMATTED,
+            "sub/c.lua": clireplay.UNFORMATTED, "sub/d.lua": clireplay.UNFORMATTED}
+    orders = [["bad.lua", "a.lua", "b.lua", "ok.lua", "sub"], ["a.lua", "b.lua", "ok.lua", "sub", "bad.lua"], ["a.lua", "bad.lua", "sub", "b.lua", "ok.lua"],
+              ["a.lua", "bad.lua", "b.lua", "missing.lua"], ["a.lua", "ok.lua"], ["ok.lua", "a.lua", "bad.lua"]]
+    modes = [[], ["--check"], ["--check", "--output-format", "json"], ["--check", "--output-format", "unified"], ["--check", "--output-format", "summary"],
+             ["--output-format", "json"]]
+    for order in orders:
+        named = [f for f in order if f != "sub"] + (["sub/c.lua", "sub/d.lua"] if "sub" in order else [])
+        has_err = "bad.lua" in order or "missing.lua" in order
+        has_diff = any(base.get(f) == clireplay.UNFORMATTED for f in named)
+        for mode in modes:
+            want_rc = 2 if has_err else (1 if ("--check" in mode and has_diff) else 0)
+            for nt in ("1", "2", "3", "8", "16"):
+                r = clireplay.run_cli(binp, base, ["--num-threads", nt] + mode + order)
+                bad = []
+                for f in named:
+                    if f not in base:
+                        continue
+                    want = base[f] if ("--check" in mode or base[f] != clireplay.UNFORMATTED) else clireplay.FORMATTED
+                    if r["after"][f][0].decode() != want:
+                        bad.append(f)
+                if r["rc"] != want_rc or bad:
+                    return (f"--num-threads {nt} {' '.join(mode)} {' '.join(order)}: exit status {r['rc']} (expected {want_rc})" +
+                            (f", files not as when formatted alone: {bad}" if bad else ""), {"argv": ["--num-threads", nt] + mode + order})
+    return None, {}
+
+
+def work_units(ses, rep):
+    """a job handed to the pool formats ONE file and forwards its result, Ok or Err, exactly once (C14's sender kernel): with jobs that bundle
+    several files the fate of a file depends on how the files were split, i.e. on the thread count"""
+    from . import c14
+    funcs = ses.mir("bin", "default")
+    ex = ses.executor("bin", "default", hooks=c14.HOOKS, inline=lambda n, fn: False)
+    return c14.analyse_senders(ses, rep, ex, funcs)
+
+
 def fallback(rep):
+    v, rec = replay_sweep()
+    if v:
+        rep.add("battery/sweep", rep.violation({"obligation": "battery-after-undecided-kernel", "scenario": "sweep"}, {"what": "kernel undecided; thread-count sweep", "observed": v,
+                                                                                                                 "replay_kind": "sweep", **rec}), v)
     """kernels undecided: the thread-count replays are run; only a failing concrete oracle is reported"""
     for kind, fn_ in (("state", replay_state), ("jobs", replay_jobs)):
         v, rec = fn_()
@@ -418,6 +475,13 @@ def replay(path):
     if d["replay"].get("replay_kind") == "jobs":
         v, rec = replay_jobs()
         print(v or "a panicking job has the same effect for every thread count")
+        if v:
+            print(f"VIOLATION property=C19 replay={path}")
+            return 1
+        return 0
+    if d["replay"].get("replay_kind") == "sweep":
+        v, rec = replay_sweep()
+        print(v or "exit status and file contents are the same for every thread count")
         if v:
             print(f"VIOLATION property=C19 replay={path}")
             return 1
